@@ -18,7 +18,7 @@ PROPERTY_RULES = {
     "C13": ["r_e4", "r_a6", "r_c3", "r_e1", "r_a13", "r_a16", "r_c7", "r_a8", "r_a20"],
     "C14": ["r_d1"],
     "C15": ["r_d2", "r_d3"],
-    "C16": ["r_e1", "r_e2", "r_e5", "r_b1", "r_o3", "r_a2", "r_a9"],
+    "C16": ["r_e1", "r_e2", "r_e5", "r_b1", "r_o3", "r_a2", "r_a9", "r_e6"],
     "C17": ["r_c6", "r_a3", "r_c5", "r_a14", "r_a6", "r_a16"],
     "C18": ["r_a15", "r_a2", "r_a12", "r_a22"],
 }
@@ -87,7 +87,9 @@ CLAUSES = {
            "IntoIter yields chunk()[0] and advances by 1 exactly while bytes remain; Chain::{advance, copy_to_bytes} take from the two halves amounts that add up to the request on every path (linear domain)",
     "C12": "Take/Limit: remaining = min(inner, limit), chunk truncated by the same min, guarded paired bookkeeping; Chain order for both traits; "
            "Reader/Writer transfer exactly min(available, requested), return it, never construct Err; accessors are plain field accessors, constructors store "
-           "their arguments unchanged; Take::chunks_vectored bounds the inner count by dst.len()",
+           "their arguments unchanged; Take::chunks_vectored bounds the inner count by dst.len(); in every function (so also in any further override of Read / Write / Iterator "
+           "methods) a byte count handed to a cursor movement rests on an observation of that cursor that is still current, and an index into chunk() on fresh evidence of "
+           "non-emptiness (C9). Not decided: whether a loop of judged transfers in a new override ends at the right moment (sum of transfers = min(available, total requested))",
     "C05": "free/take-over decisions are taken on the result of the atomic RMW itself (fetch_sub == 1; CAS 1->0; publishing CAS of a fresh control block "
            "whose loser uses the winner's value); every take-over is dominated by a uniqueness test",
     "C06": "every atomic site has at least the ordering its role requires (decrement >= Release; Acquire before free; Acquire uniqueness test before "
@@ -97,10 +99,11 @@ CLAUSES = {
            "error fields and cursor movement use the value width; no profile-dependent arithmetic on caller-controlled integers in the decoders; "
            "the chunk-gathering slow path loops until the destination is full; the leaf cursors' remaining()/chunk() agree; a try_* reader that returns Err has consumed nothing on any path (own Err, `?` residual, fallible tail call: C8)",
     "C11": "every typed putter uses the conversion/type/byte order/width its name promises (be = tail, le = head slicing of the 8-byte encoding); copy loops "
-           "move min(real lengths) and stop only on exhaustion; BytesMut's growth path moves the bytes in the right direction before re-basing; advance_mut after a specialised write exposes exactly bytes that a dominating write at the write cursor covered (A16)",
+           "move min(real lengths) and stop only on exhaustion; BytesMut's growth path moves the bytes in the right direction before re-basing; advance_mut after a specialised write exposes exactly bytes that a dominating write at the write cursor covered (A16); what a putter encodes is its argument through bit-preserving conversions only (C2 value flow); no raw pointer into the buffer survives a call that may move it (A21); bounds taken from a cursor are current where they are used (C9)",
     "C16": "no profile-dependent arithmetic (overflow/shift asserts, explicit wrapping ops) on caller-controlled integers anywhere in the crate; the "
-           "even/odd promotable vtables are slot-wise isomorphic modulo unmasking, the parity dispatch is consistent and vtable identity tests cover both parities; fact tables agree across the "
-           "feature/atomic configurations (thorough tier); the conditions of debug_assert! are effect-free, so builds with and without debug assertions run the same state changes (E5)",
+           "even/odd promotable vtables are slot-wise isomorphic modulo unmasking, the parity dispatch is consistent and vtable identity tests cover both parities; the verdict tables of every rule of the framework (not only the rules listed here) agree between the analysed "
+           "configurations - default / no_std / portable-atomic / release-like in the quick tier, K1..K6 in the thorough tier (E3; only the differences are reported here); the conditions of debug_assert! are effect-free, so builds with and without debug assertions run the same state changes (E5); "
+           "address differences are (pointer into a buffer) - (start of that buffer) or guarded, so no subtraction panics in debug and wraps in release (E6)",
     "C14": "all comparison/hash/borrow impls delegate to the [u8] impl over content-preserving views with operands in the right order",
 }
 
@@ -125,14 +128,14 @@ TECHNIQUE = {
     "C03": "path-sensitive linear-token accounting over MIR (acyclic path enumeration with constant folding and tag-feasibility pruning, interprocedural event summaries)",
     "C02": "precondition extraction from debug_assert!s of unsafe helpers + dominating-guard implication at every safe call site; shape rules for raw slices/writes; arithmetic taint; linear-inequality entailments over path end states (A16 A18); upper-bound (bit-field) analysis of the tagged data word (A17); effect analysis of debug-only regions",
     "C13": "reachability from state-write sites to argument-dependent panic sites over MIR CFGs with interprocedural summaries; dominating-guard implication; arithmetic taint; linear-inequality entailments (shrink-or-fill for set_len/advance_mut; callee panic sites judged in inlined views)",
-    "C09": "path rule over MIR CFG: every entry->call path to a call on Chain.b carries an a-exhausted witness; shape rules for Take; path-sensitive conservation check (amounts taken from both halves add up) in the linear domain; Err-path atomicity of try_* readers",
-    "C12": "shape + path rules over MIR for the adapters' arithmetic (min, truncation, paired decrement, Chain order, Reader/Writer transfer)",
+    "C09": "path rule over MIR CFG: every entry->call path to a call on Chain.b carries an a-exhausted witness; shape rules for Take; path-sensitive conservation check (amounts taken from both halves add up) in the linear domain; Err-path atomicity of try_* readers; forward must/may dataflow of cursor observations against cursor movements (C9)",
+    "C12": "shape + path rules over MIR for the adapters' arithmetic (min, truncation, paired decrement, Chain order, Reader/Writer transfer); forward must/may dataflow of cursor observations against cursor movements, loops to a fixpoint (C9)",
     "C05": "role classification of all atomic sites + dominance of free/take-over events by the deciding RMW edge (MIR CFG dominators, interprocedural over call sites)",
     "C06": "ordering-by-role conformance at all atomic sites (release/acquire recipe) + dominating Acquire-guard analysis for take-over events",
     "C14": "MIR orientation/delegation analysis over rustc-resolved callees (custom rustc_private driver)",
     "C10": "name-grammar vs decode-signature agreement over MIR callees, sibling agreement get/try_get, taint+guard analysis of overflow asserts; path rule: every Err path of a try_* reader precedes all consuming calls, every Ok path consumes exactly once",
-    "C11": "name-grammar vs encode-signature agreement over MIR callees, taint+guard analysis of overflow asserts",
-    "C16": "taint + dominating-guard analysis of every MIR overflow/shift assert (profile-dependent arithmetic); effect analysis of debug-only regions (E5); quick tier analyses the release-like, no_std and portable-atomic configurations",
+    "C11": "name-grammar vs encode-signature agreement over MIR callees, value-flow of the encoded operand, taint+guard analysis of overflow asserts; forward gen/kill dataflows for raw-pointer freshness (A21) and cursor-observation freshness (C9)",
+    "C16": "taint + dominating-guard analysis of every MIR overflow/shift assert (profile-dependent arithmetic); effect analysis of debug-only regions (E5); differential: verdict tables of all rules compared between the release-like, no_std, portable-atomic and default configurations in the quick tier (K1..K6 thorough); buffer-start provenance of address subtractions resolved through helper callers (E6)",
 }
 LEVEL_NOTE["C17"] = ("trusted: slices returned by safe user code have their real length; BufMut is an unsafe trait (its implementors are trusted). NOT decided: "
                       "leak-freedom when user code panics at arbitrary points (unwinding paths are analysed for from_owner only).")
@@ -154,3 +157,14 @@ TRUSTED = [
 
 def rules_for(prop):
     return [importlib.import_module("rules." + m) for m in PROPERTY_RULES.get(prop, [])]
+
+
+def all_rules():
+    """every rule module listed for some property (each once)"""
+    seen, out = set(), []
+    for p in sorted(PROPERTY_RULES):
+        for m in PROPERTY_RULES[p]:
+            if m not in seen:
+                seen.add(m)
+                out.append(importlib.import_module("rules." + m))
+    return out
